@@ -230,6 +230,18 @@ partial def genLooseItems : Nat → Nat → Nat → List Bytes → G → List (L
     let (two, g) := g.next 2
     let isList := match b0 with | .list _ _ _ => true | _ => false
     let (more, g) := if two == 0 then let (b1, g) := genBlk f d false isList labels g; ([b1], g) else ([], g)
+    -- one time in five the item ENDS in an indented code block (whatever came before): the blank line that separates it
+    -- from the next item is then what makes the list loose
+    let (ic, g) := g.next 5
+    let (more, g) :=
+      let lastIsListOrCode : Bool := match (more.getLast? : Option Blk) with
+        | some (Blk.list _ _ _) => true
+        | some (Blk.indented _) => true
+        | _ => false
+      if ic == 0 && !isList && !lastIsListOrCode then
+        let (ls, g) := genLines g (codeLinePool.filter (fun l => !l.isEmpty)) true
+        (more ++ [Blk.indented ls], g)
+      else (more, g)
     let (rest, g) := genLooseItems f d m labels g
     ((b0 :: more) :: rest, g)
 end
